@@ -38,13 +38,18 @@ Theorem C01_plain_outcome :
   (forall s r' mid e,
      (rs_cmd r' = SmppCommand_SUBMIT_SM_RESP \/ rs_cmd r' = SmppCommand_GENERIC_NACK) ->
      dget (rs_seq r') (c_store (h_corr s)) = Some e -> sm_cmd (e_msg e) = SmppCommand_SUBMIT_SM ->
-     dget (rs_seq r') (c_seg (h_corr s)) = None ->
+     dget (rs_seq r') (c_seg (h_corr s)) = None -> snd (sm_sar (e_msg e)) = 0 ->
      snd (handle_response s r' mid) = [HResp (rs_uid r') (sm_log (e_msg e)) (rs_cmd r') (rs_status r')])
   /\ (forall s sq e,
         dget sq (c_store (h_corr s)) = Some e -> sm_cmd (e_msg e) = SmppCommand_SUBMIT_SM -> sm_seq (e_msg e) = sq ->
         dget sq (c_seg (h_corr s)) = None ->
         snd (hstep s (HExpire sq)) = [HSendError (sm_log (e_msg e))]).
 Proof. split; [exact plain_outcome | exact plain_timeout]. Qed.
+
+(* the handler with the sweep that correlator.get() runs before returning (requests that time out while a response is being
+   correlated) is the plain handler when nothing times out; its behaviour with time-outs is validated against the real code *)
+Theorem C01_in_call_sweep : forall s r' mid, handle_response_x [] s r' mid = handle_response s r' mid.
+Proof. exact handle_response_x_nil. Qed.
 
 (* the status a message ends with: failed beats timed-out beats accepted *)
 Theorem C01_failure_wins :
